@@ -6,6 +6,7 @@ import TracklibVerif.Lemmas.CinTabGeom
 import TracklibVerif.Lemmas.CinCoords
 import TracklibVerif.Lemmas.CinTabMore
 import TracklibVerif.Lemmas.CinTabZone
+import TracklibVerif.Lemmas.CinTabSt
 import Mathlib.Analysis.Real.Sqrt
 /-! # C17 — curvilinear abscissa and speed features match their geometric definitions
 
@@ -290,6 +291,14 @@ open TV.Features TV.CinTab
 feature table; so `abscurv_table`, `speed_table`, … hold on it (and, through C01's simulation theorems, on the
 dict-and-rows table `Features.St` of a single track). -/
 theorem spec_table_lawful {V : Type} [Inhabited V] : Laws (σ := ATab V) (V := V) aI ATab.size aRd ATab.coord := laws_ATab
+
+/-- The dict-and-rows table of a single track (`Features.St`, C01's concrete model: `__analyticalFeaturesDico` as a
+name → index list, one `features` row per observation) satisfies the laws of a feature table under C01's alignment
+invariant `Features.Inv` (the dict enumerates distinct names, every row carries exactly one value per listed name, the
+coordinate columns have one value per observation); a name reads the column of the index the dict designates. Each law
+is carried over from the specification table by C01's simulation lemma of the primitive. Hence `abscurv_table`,
+`speed_table`, `curvabs_table`, `length_table`, … hold on the table as Python lays it out. -/
+theorem dict_rows_table_lawful {V : Type} [Inhabited V] : Laws (σ := St V) (V := V) sI sN sRd St.coord := laws_St
 
 /-- **Shared observations.** The world of observation OBJECTS referenced by several tracks (`+`, extract, slicing share
 them; each object carries one `features` list, each track its own name → index dict) satisfies the laws of a feature
@@ -707,6 +716,26 @@ example : (match (stepW (optG (fun x => if x = 25 then 5 else if x = 1 then 1 el
 example : len3D (fun x : Rat => if x = 25 then 5 else if x = 1 then 1 else if x = 26 then 51 / 10 else 0) demo.xy [0, 0, 1, 0] 3
     = 111 / 10 := by decide +kernel
 end demoWorld
+
+/-! ### non-vacuity of `dict_rows_table_lawful`: an aligned dict-and-rows table -/
+section demoSt
+open TV.Features TV.CinTab
+
+/-- four fixes, two listed features (`w` at index 0, `speed` at index 1), one row of two values per observation -/
+def demoSt : St (Option Rat) :=
+  { dico := [("w", 0), ("speed", 1)], rows := [[some 1, some 7], [some 2, some 7], [some 3, some 7], [some 4, some 7]],
+    xs := [some 0, some 3, some 3, some 6], ys := [some 0, some 4, some 4, some 8], zs := [some 0, some 0, some 1, some 0],
+    ts := [some 0, some 2, some 2, some 5] }
+
+example : sI demoSt := ⟨by decide, by decide, by decide, by decide, by decide, by decide, by decide, by decide⟩
+example : sN demoSt = 4 ∧ sRd demoSt "w" = some [some 1, some 2, some 3, some 4] ∧ sRd demoSt "abs_curv" = none
+    ∧ sRd demoSt "ds" = none := by decide +kernel
+/-- the run on that table: abs_curv 0, 5, 5, 10 is appended as a third name, `w` and `speed` read as before -/
+example : ((computeAbsCurvT demoG : M (St (Option Rat)) _) demoSt).1 = .ok [some 0, some 5, some 5, some 10] := by decide +kernel
+example : sRd ((computeAbsCurvT demoG : M (St (Option Rat)) _) demoSt).2 "w" = some [some 1, some 2, some 3, some 4]
+    ∧ sRd ((computeAbsCurvT demoG : M (St (Option Rat)) _) demoSt).2 "abs_curv" = some [some 0, some 5, some 5, some 10] := by
+  decide +kernel
+end demoSt
 
 /-! ### non-vacuity of the per-class theorems -/
 section demoCoords
